@@ -98,11 +98,11 @@ class Failure:
                 "tags": sorted(self.tags), "verus_output": self.rendered}
 
 
-def verify_tree(keep=False, extra=(), variant=None):
+def verify_tree(keep=False, extra=(), variant=None, vc_files=None):
     """one Verus run on the annotated current tree"""
     sc = engine.Scratch(keep=keep)
     try:
-        ov = engine.build_overlay(sc.dir, mutate=variant)
+        ov = engine.build_overlay(sc.dir, vc_files=vc_files, mutate=variant)
         if ov.problems:
             return sc, ov, None, {}, {}
         r = engine.run_verus(sc.dir, extra=extra)
@@ -247,6 +247,17 @@ def main():
     if seed:
         extra += ["--smt-option", f"smt.random_seed={seed % 100000}"]
     sc, ov, r, fn_ranges, lt = verify_tree(keep=keep, extra=extra)
+    # a change that moves parser.rs outside the Verus subset must not take the properties that do not depend on the
+    # parser with it: re-run without the parser overlay (parser.rs is then plain Rust that Verus ignores)
+    if r is not None and r.front_end_error and not any(re.search(pat, "xml_schema_generator::parser::x") for pat in P["units"]):
+        files = set()
+        for d in r.diags:
+            for sp in engine.diag_spans(d):
+                files.add(sp[0])
+        if files and all(f == "src/parser.rs" for f in files):
+            log("note: the annotated parser.rs is rejected by the Verus front end; verifying", pid, "without the parser overlay")
+            sc.__exit__()
+            sc, ov, r, fn_ranges, lt = verify_tree(keep=keep, extra=extra, vc_files=[f for f in engine.VC_ORDER if f != "parser.vc"])
     try:
         return decide(pid, P, tier, seed, sc, ov, r, fn_ranges, lt, t0, replay)
     finally:
